@@ -65,7 +65,7 @@ from _gettsim.vectorization import make_vectorizable
 snips = json.loads(sys.stdin.read())
 out = {}
 for name, src in snips:
-    fn = str(C.WORK / ("u8_snip_%s.py" % name))
+    fn = WORKDIR + "/u8_snip_%s.py" % name
     open(fn, "w").write(src)
     spec = importlib.util.spec_from_file_location("snip_" + name, fn)
     mod = importlib.util.module_from_spec(spec); spec.loader.exec_module(mod)
@@ -91,8 +91,31 @@ for name, src in snips:
         out[name] = dict(stage="call", error=type(e).__name__); continue
     bad = [dict(i=i, inputs={n: cols[n][i] for n in names}, array_form=v[i], scalar=sc[i]) for i in range(len(xs)) if not isinstance(sc[i], str) and abs(v[i] - sc[i]) > 1e-12]
     out[name] = dict(stage="ok", differences=bad[:2], positions=len(xs))
+# two DIFFERENT functions with the same function name in equally named files (reform_a/regeln.py, reform_b/regeln.py),
+# converted one after the other in this process: each array form must agree with its own scalar function
+import os
+pair = [("a", "def zuschlag_m(x):\n    if x > 0:\n        out = x + 50.0\n    else:\n        out = 0.0\n    return out\n"),
+        ("b", "def zuschlag_m(x):\n    if x > 1:\n        out = 3.0 * x\n    else:\n        out = -80.0\n    return out\n")]
+bad = []
+for tag, src in pair:
+    d = WORKDIR + "/u8_pair_" + tag
+    os.makedirs(d, exist_ok=True)
+    fn = d + "/regeln.py"
+    open(fn, "w").write(src)
+    spec = importlib.util.spec_from_file_location("regeln.py", fn)
+    mod = importlib.util.module_from_spec(spec); spec.loader.exec_module(mod)
+    f = mod.zuschlag_m
+    xs = [-7.0, 0.0, 0.5, 1.0, 2.0, 11.0]
+    sc = [float(f(x)) for x in xs]
+    try:
+        v = [float(z) for z in np.asarray(make_vectorizable(f, "numpy")(np.array(xs)))]
+    except Exception as e:
+        out["same_name_pair_" + tag] = dict(stage="call", error=type(e).__name__); continue
+    diffs = [dict(i=i, inputs={"x": xs[i]}, array_form=v[i], scalar=sc[i]) for i in range(len(xs)) if abs(v[i] - sc[i]) > 1e-12]
+    out["same_name_pair_" + tag] = dict(stage="ok", differences=diffs[:2], positions=len(xs))
 print("SNIP" + json.dumps(out))
 '''
+    code = code.replace("WORKDIR", repr(str(C.WORK)))
     p = subprocess.run([C.PY, "-c", code], env=C.ENV, input=json.dumps([[n, s] for n, s in SNIPPETS]), capture_output=True, text=True, timeout=600)
     for line in p.stdout.splitlines():
         if line.startswith("SNIP"):
@@ -124,7 +147,7 @@ def run(ctx, res):
     for name, v in sn.items():
         if v["stage"] == "ok" and v["differences"]:
             res.add_violation(f"transformer:{mech.get(name, name)}", f"the Transformer silently changes the meaning of `{name}`: {v['differences'][0]}",
-                              dict(kind="snippet", snippet=name, source=dict(SNIPPETS)[name], difference=v["differences"][0]), True)
+                              dict(kind="snippet", snippet=name, source=dict(SNIPPETS).get(name, "two functions named zuschlag_m in reform_a/regeln.py and reform_b/regeln.py"), difference=v["differences"][0]), True)
     for ob in out:
         if not ob["ok"]:
             names = [n for n in (ob.get("diag") or "").split(";") if n]
